@@ -448,6 +448,23 @@ func (f *Footer) segmentLocs() (SegmentLocs, *segmentStack) {
 	return slocs, ss
 }
 
+// childFileRef returns the FileRef of the first persisted segment
+// found amongst the child footers, recursively, or nil when none of
+// them has a persisted segment.
+func (f *Footer) childFileRef() *FileRef {
+	for _, childFooter := range f.ChildFooters {
+		for _, sloc := range childFooter.SegmentLocs {
+			if sloc.mref != nil && sloc.mref.fref != nil {
+				return sloc.mref.fref
+			}
+		}
+		if fref := childFooter.childFileRef(); fref != nil {
+			return fref
+		}
+	}
+	return nil
+}
+
 // --------------------------------------------------------
 
 // Get retrieves a val from the footer, and will return nil val
